@@ -40,4 +40,7 @@ uint64_t vrt_switches();
 uint64_t vrt_now();
 // number of races found by the payload monitor in the last section
 uint64_t vrt_races();
+// opt-in (default off): trace every controlled clock_gettime as `<tid> ev clock <ns>` and append
+// ` to=<ns>` (relative timeout) to the `fwait` line of a timed futex wait
+void vrt_trace_clock(int on);
 }
